@@ -11,7 +11,12 @@ RULE = ('SSH (quick, exhaustive grid on a recording paramiko.Transport reached t
         'hostkey_verify x known_hosts file layout (no file, empty, match under host, match under [host]:port, different key of '
         'the same/another type, other host only, both names with conflicting keys, duplicates) x pinned key (absent, unusable, '
         'matching, different same type, different type) x callback (default, caller True, caller False) x all 13 device '
-        'profiles x credentials; credential grid: key_filename lists (good/unreadable) x agent keys x default key files '
+        'profiles x credentials; callback-argument grid: callbacks whose verdict DEPENDS on what they are called with (accept only '
+        'the fingerprint of the presented key / of a key stored in known_hosts / of another stored key / of a key seen nowhere; accept '
+        'only when called with the dialled host name / the [host]:port name / another name; both) x known_hosts layouts in which the '
+        'host is known under a DIFFERENT key of the same type (bare-host entry, [host]:port entry, both, two different ones) or of '
+        'another type, or not at all x pins x presented key, the arguments of every callback invocation and the .fingerprint of '
+        'SSHUnknownHostError recorded and required to be (dialled host, fingerprint of the presented key); credential grid: key_filename lists (good/unreadable) x agent keys x default key files '
         'x password x every position of the first accepted request (and none) x subsystem/open/hello/kex verdicts. '
         'TLS (quick, exhaustive): missing host/certfile/protocol x check_hostname x ca_certs x server_hostname x '
         'load_cert/load_ca outcome x connect x handshake x hello on a recording SSLContext. '
@@ -26,8 +31,10 @@ ALLOWED_AXIOMS = []
 
 OVERRIDE = ('iosxe', 'iosxr', 'csr')          # profiles documented to replace the unknown-host callback
 EXEC_FALLBACK = ('junos',)
-KEYCODE = {'E1': (1, 10), 'E2': (1, 11), 'R1': (2, 20)}
+KEYCODE = {'E1': (1, 10), 'E2': (1, 11), 'E3': (1, 12), 'X9': (1, 99), 'R1': (2, 20)}     # X9: a key nobody presents or stores
+KEYNAME = {v: k for k, v in KEYCODE.items()}
 SEL = {'host': 0, 'hostport': 1, 'other': 2}
+SELNAME = {v: k for k, v in SEL.items()}
 ENCRYPTED = {'kf0': False, 'kf1': False, 'kfe': True, 'bad': None, 'id_rsa': False, 'id_dsa': None, 'id_ecdsa': True}
 def load_ok(name, password):
     """PKey.from_path(file, passphrase) of the installed paramiko/cryptography: an unreadable file fails; an encrypted key needs
@@ -52,11 +59,28 @@ def profiles():
 
 # ------------------------------------------------------------------ SSH: model call, canonical forms
 def ssh_case(**kw):
-    c = dict(verify=True, kh=None, pin=None, user_cb=False, cb_verdict=False, profile='default', key_files=[], allow_agent=False,
+    c = dict(verify=True, kh=None, pin=None, user_cb=False, cb_verdict=False, cb_policy=None, profile='default', key_files=[], allow_agent=False,
              agent_keys=0, look_for_keys=False, default_keys=[], password=True, server_key='E1', kex_ok=True, auths=[True],
              opens=[True, True], subs=[True, True], hello_ok=True)
     c.update(kw)
     return c
+
+def cb_model(c):
+    """the caller's callback as data for the model: a function of (host name it is called with, key whose fingerprint it is shown)"""
+    pol = c.get('cb_policy')
+    if not pol: return [0, bool(c['cb_verdict'])]
+    if pol[0] == 'fp': return [1, list(KEYCODE[pol[1]])]
+    if pol[0] == 'host': return [2, SEL[pol[1]]]
+    return [3, SEL[pol[1]], list(KEYCODE[pol[2]])]
+
+def cb_says(c):
+    """The verdict of the caller's callback on (the host name that was dialled, the fingerprint of the key the server presented),
+    read off the policy's definition: the only verdict the property sentence lets count."""
+    pol = c.get('cb_policy')
+    if not pol: return bool(c['cb_verdict'])
+    if pol[0] == 'fp': return pol[1] == c['server_key']
+    if pol[0] == 'host': return pol[1] == 'host'
+    return pol[1] == 'host' and pol[2] == c['server_key']
 
 def ssh_model_call(c):
     kh = [[SEL[s], KEYCODE[k][0], KEYCODE[k][1]] for s, k in (c['kh'] or [])] if c['verify'] else []
@@ -66,17 +90,17 @@ def ssh_model_call(c):
     if c['look_for_keys']: loads += [load_ok(p, c['password']) for p in c['default_keys']]
     cfg = [c['verify'], kh, pin, c['user_cb'], c['profile'] in OVERRIDE, len(c['key_files']), c['allow_agent'], c['look_for_keys'],
            c['password'], [s.encode() for s in subsystems_of(c['profile'])], c['profile'] in EXEC_FALLBACK]
-    orc = [c['kex_ok'], list(KEYCODE[c['server_key']]), bool(c['cb_verdict']), loads, c['agent_keys'], len(c['default_keys']),
+    orc = [c['kex_ok'], list(KEYCODE[c['server_key']]), cb_model(c), loads, c['agent_keys'], len(c['default_keys']),
            list(c['auths']), list(c['opens']), list(c['subs']), c['hello_ok']]
     return [1, cfg, orc]
 
 def model_events(v):
-    """decoded model output -> (canonical trace without the ghost event, ghost 'how' list, result code)"""
+    """decoded model output -> (canonical trace without the ghost event, ghost 'how' list, result code, exception detail)"""
     evs, how = [], []
     for e in v[0]:
         t = e[0]
         if t == 0: evs.append(['StartClient'])
-        elif t == 1: evs.append(['CallbackAsked'])
+        elif t == 1: evs.append(['CallbackAsked', SELNAME[e[1]], KEYNAME.get((e[2], e[3]), '?')])
         elif t == 2: how.append([['known_hosts', 'pinned', 'callback'][e[1]], e[2]])
         elif t == 3: evs.append(['Auth', e[1], e[2], bool(e[3])])
         elif t == 4: evs.append(['OpenSession'])
@@ -87,7 +111,8 @@ def model_events(v):
         elif t == 9: evs.append(['TlsLoadCA'])
         elif t == 10: evs.append(['TlsConnect'])
         elif t == 11: evs.append(['Handshake', bool(e[1]), bool(e[2]), 'server_hostname' if e[3] else 'host'])
-    return evs, how, v[1]
+    det = v[2] if len(v) > 2 else []
+    return evs, how, v[1], ([SELNAME[det[0]], KEYNAME.get((det[1], det[2]), '?')] if det else [])
 
 def impl_events(raw):
     return [list(e) for e in raw if e[0] != 'GetServerKey']
@@ -95,15 +120,23 @@ def impl_events(raw):
 SENSITIVE = ('Auth', 'OpenSession', 'Invoke', 'OpenChannel', 'Exec', 'SendHello')
 SESSION = ('OpenSession', 'Invoke', 'OpenChannel', 'Exec', 'SendHello')
 
-def ssh_oracle(c, raw, code):
+def ssh_oracle(c, raw, code, detail=None):
     """The property sentence evaluated on what the recording transport saw.  Returns a list of (sig, text)."""
     bad = []
+    # the inputs of the callback: every invocation is about (dialled host, fingerprint of the key the server presented)
+    for e in raw:
+        if e[0] == 'CallbackAsked' and list(e[1:]) != ['host', c['server_key']]:
+            bad.append(('callback_shown_wrong_arguments', 'unknown_host_cb was called with (host: %s, fingerprint of: %s); the host dialled is "host" and the server presented %s'
+                        % (e[1], e[2], c['server_key'])))
+            break
+    if code == 1 and detail is not None and (len(detail) < 2 or detail[1] != c['server_key']):
+        bad.append(('unknown_host_error_wrong_fingerprint', 'SSHUnknownHostError carries the fingerprint of %s; the server presented %s' % (detail[1:] or None, c['server_key'])))
     names = [e[0] for e in raw]
     first_sens = next((i for i, n in enumerate(names) if n in SENSITIVE), None)
     key = c['server_key']
     kh = c['kh'] or []
     in_file = ['host', key] in [list(x) for x in kh] or ['hostport', key] in [list(x) for x in kh]
-    cb_true = True if c['profile'] in OVERRIDE else (bool(c['cb_verdict']) if c['user_cb'] else False)
+    cb_true = True if c['profile'] in OVERRIDE else (cb_says(c) if c['user_cb'] else False)
     if c['pin']: reason = (c['pin'] == key) or cb_true
     else: reason = in_file or cb_true
     if c['verify']:
@@ -140,6 +173,28 @@ PINS = [None, 'bad', 'E1', 'E2', 'R1']
 CALLBACKS = [(False, False), (True, True), (True, False), (True, None), (True, 0), (True, ''), (True, 1), (True, 'yes')]   # verdicts by truthiness
 SIMPLE_CREDS = [dict(password=True, auths=[True]), dict(password=True, auths=[False]), dict(password=False, auths=[])]
 
+# callbacks whose verdict depends on their arguments, over layouts where the host is known under another key
+CB_POLICIES = [['fp', 'E1'], ['fp', 'E2'], ['fp', 'E3'], ['fp', 'R1'], ['fp', 'X9'], ['host', 'host'], ['host', 'hostport'], ['host', 'other'],
+               ['hostfp', 'host', 'E1'], ['hostfp', 'host', 'E2'], ['hostfp', 'hostport', 'E1'], ['hostfp', 'hostport', 'E2']]
+KH_OTHERKEY = [[('host', 'E2')], [('hostport', 'E2')], [('host', 'E2'), ('hostport', 'E2')], [('host', 'E2'), ('hostport', 'E3')],
+               [('host', 'E3'), ('hostport', 'E2')], [('host', 'R1')], [('hostport', 'R1')], [('host', 'R1'), ('host', 'E2')],
+               [('other', 'E2')], None, [], [('host', 'E1')], [('hostport', 'E1')], [('host', 'E2'), ('hostport', 'E1')]]
+def callback_arg_grid(tier, profs):
+    refused = dict(password=True, auths=[False]); granted = dict(password=True, auths=[True])
+    if tier == 'quick':
+        for kh, pin, pol, prof in itertools.product(KH_OTHERKEY, [None, 'E1', 'E2'], CB_POLICIES, ['default', 'iosxe']):
+            yield ssh_case(kh=kh, pin=pin, user_cb=True, cb_policy=pol, profile=prof, **granted)
+        for kh, pol, (sk, cr) in itertools.product(KH_OTHERKEY, CB_POLICIES, [('R1', granted), ('E1', refused), ('E2', refused)]):
+            yield ssh_case(kh=kh, user_cb=True, cb_policy=pol, server_key=sk, **cr)
+    else:
+        for kh, pin, pol, prof, sk, cr in itertools.product(KH_OTHERKEY, [None, 'bad', 'E1', 'E2', 'R1'], CB_POLICIES, profs, ['E1', 'E2', 'R1'], [granted, refused]):
+            yield ssh_case(kh=kh, pin=pin, user_cb=True, cb_policy=pol, profile=prof, server_key=sk, **cr)
+    # no host name dialled (call-home); one session object connected twice
+    for pin, pol in itertools.product([None, 'E2'], CB_POLICIES):
+        yield ssh_case(pin=pin, user_cb=True, cb_policy=pol, host_none=True, **refused)
+        for kh in ([('host', 'E2')], [('hostport', 'E2')]):
+            yield ssh_case(kh=kh, pin=pin, user_cb=True, cb_policy=pol, prior_accept=True, **refused)
+
 def hostkey_grid(profs):
     for verify, kh, pin, (ucb, cbv), prof, cr in itertools.product([True, False], KH_LAYOUTS, PINS, CALLBACKS, profs, SIMPLE_CREDS):
         yield ssh_case(verify=verify, kh=kh, pin=pin, user_cb=ucb, cb_verdict=cbv, profile=prof, **cr)
@@ -173,14 +228,15 @@ def random_ssh_cases(rng, n):
     """fully random configurations and verdict streams (seeded by VERIF_SEED): known_hosts layouts of up to 4 lines"""
     profs = profiles()
     for _ in range(n):
-        kh = None if rng.random() < 0.1 else [(rng.choice(['host', 'hostport', 'other']), rng.choice(['E1', 'E2', 'R1'])) for _ in range(rng.randint(0, 4))]
+        kh = None if rng.random() < 0.1 else [(rng.choice(['host', 'hostport', 'other']), rng.choice(['E1', 'E2', 'E3', 'R1'])) for _ in range(rng.randint(0, 4))]
         kf = rng.choice(KEYFILES); ag = rng.choice(AGENTS); dk = rng.choice(DEFAULTS); pw = rng.random() < 0.6
         n_att = n_attempts(kf, ag, dk, pw)
         auths = [rng.random() < 0.3 for _ in range(rng.randint(0, n_att + 1))]
         ucb = rng.random() < 0.5
-        yield ssh_case(verify=rng.random() < 0.8, kh=kh, pin=rng.choice([None, None, 'bad', 'E1', 'E2', 'R1']), user_cb=ucb, cb_verdict=ucb and rng.random() < 0.5,
+        pol = rng.choice(CB_POLICIES) if ucb and rng.random() < 0.5 else None
+        yield ssh_case(cb_policy=pol, verify=rng.random() < 0.8, kh=kh, pin=rng.choice([None, None, 'bad', 'E1', 'E2', 'R1']), user_cb=ucb, cb_verdict=ucb and rng.random() < 0.5,
                        profile=rng.choice(profs), key_files=kf, allow_agent=ag[0], agent_keys=ag[1], look_for_keys=dk[0], default_keys=dk[1],
-                       password=pw, server_key=rng.choice(['E1', 'E1', 'E2', 'R1']), kex_ok=rng.random() < 0.95, auths=auths,
+                       password=pw, server_key=rng.choice(['E1', 'E1', 'E2', 'E3', 'R1']), kex_ok=rng.random() < 0.95, auths=auths,
                        opens=[rng.random() < 0.9 for _ in range(2)], subs=[rng.random() < 0.6 for _ in range(2)], hello_ok=rng.random() < 0.9)
 
 def ssh_cases(ctx):
@@ -204,26 +260,30 @@ def ssh_cases(ctx):
         yield from hostkey_grid(profs)
         bases = [dict(verify=False), dict(verify=True, kh=[('host', 'E1')]), dict(verify=True, pin='E1'),
                  dict(verify=True, user_cb=True, cb_verdict=True), dict(verify=True, profile='csr'), dict(verify=True, user_cb=True, cb_verdict=False)]
+    yield from callback_arg_grid(ctx.tier, profs)
     yield from cred_grid(bases)
     yield from session_grid()
     if getattr(ctx, 'rng', None) is not None:
         yield from random_ssh_cases(ctx.rng, 3000 if ctx.tier == 'quick' else 40000)
 
 def check_ssh(ctx, c, mo):
-    raw, code, exn = H().run_ssh_fake(c)
+    raw, code, exn, detail = H().run_ssh_fake(c)
     ctx.count(c, nontrivial=bool(c['kex_ok'] and c['pin'] != 'bad'))
+    ctx.hist('ssh_callback', 'none' if not c['user_cb'] else ('constant' if not c.get('cb_policy') else c['cb_policy'][0] + ('=presented' if cb_says(c) else '=not-presented')))
+    for e in raw:
+        if e[0] == 'CallbackAsked': ctx.hist('ssh_callback_called_with', '%s,%s' % ('dialled-host' if e[1] == 'host' else e[1], 'presented-key' if e[2] == c['server_key'] else e[2]))
     ctx.traces += 1
     ctx.hist('ssh_result', {0: 'Ok', 1: 'SSHUnknownHostError', 2: 'AuthenticationError', 3: 'SSHError'}.get(code, 'other:%s' % exn))
     ctx.hist('ssh_profile', c['profile']); ctx.hist('ssh_attempts', sum(1 for e in raw if e[0] == 'Auth'))
-    im = [impl_events(raw), code]
+    im = [impl_events(raw), code, detail]
     if mo is not None:
         if isinstance(mo, str): ctx.disagree(c, mo, im, 'model runner error', theorem='C15_*'); return
-        evs, how, mcode = model_events(mo)
+        evs, how, mcode, mdet = model_events(mo)
         if how: ctx.hist('ssh_accepted_by', how[0][0])
-        if [evs, mcode] != im:
-            ctx.disagree(c, [evs, mcode], im, 'Auth.ssh_connect vs manager.connect_ssh on the recording transport', theorem='C15_verify_first/C15_reject/C15_auth_fail')
-    for sig, text in ssh_oracle(c, raw, code):
-        ctx.fail(c, text, sig=None, expected='property C15 (%s)' % sig, actual=dict(events=im[0], result=code, exception=exn))
+        if [evs, mcode, mdet] != im:
+            ctx.disagree(c, [evs, mcode, mdet], im, 'Auth.ssh_connect vs manager.connect_ssh on the recording transport', theorem='C15_verify_first/C15_reject/C15_auth_fail/C15_callback_args')
+    for sig, text in ssh_oracle(c, raw, code, detail):
+        ctx.fail(c, text, sig=None, expected='property C15 (%s)' % sig, actual=dict(events=im[0], result=code, exception=exn, exception_carries=detail))
     if ctx.evaluations % 1499 == 1: ctx.sample({'case': c, 'impl': im})
 
 # ------------------------------------------------------------------ TLS (recording SSLContext)
@@ -265,7 +325,7 @@ def check_tls(ctx, c, mo):
     im = [[list(e) for e in raw], code]
     if mo is not None:
         if isinstance(mo, str): ctx.disagree(c, mo, im, 'model runner error', theorem='C15_tls'); return
-        evs, _, mcode = model_events(mo)
+        evs, _, mcode, _ = model_events(mo)
         if [evs, mcode] != im:
             ctx.disagree(c, [evs, mcode], im, 'Auth.tls_connect vs manager.connect_tls on the recording SSLContext', theorem='C15_tls')
     for sig, text in tls_oracle(c, raw, code):
@@ -281,13 +341,18 @@ def real_ssh_cases():
         yield dict(kind='ssh_real', hostkey='ecdsa', verify=verify, kh=kh, pin=pin, cb=cb, subsystem_ok=True, **cr)
     for cr in creds[:3]:
         yield dict(kind='ssh_real', hostkey='ecdsa', verify=True, kh='host', pin=None, cb=None, subsystem_ok=False, **cr)
+    # callbacks that decide by the fingerprint they are shown, the host known under ANOTHER key of the same type
+    for kh, pin, cb, cr in itertools.product(['absent', 'host', 'hostport', 'different', 'different_hostport', 'different_both'], [None, 'different'],
+                                             ['only_presented', 'only_stored', 'only_random'], creds[:2]):
+        yield dict(kind='ssh_real', hostkey='ecdsa', verify=True, kh=kh, pin=pin, cb=cb, subsystem_ok=True, **cr)
     # RSA 2048 host key: see notes/C15.md O3 (an RSA key in known_hosts / pinned restricts negotiation to "ssh-rsa")
     for verify, kh, pin, cb, cr in itertools.product([True, False], ['absent', 'host', 'different'], [None, 'match', 'different'], [None, True], creds[:2]):
         yield dict(kind='ssh_real', hostkey='rsa', verify=verify, kh=kh, pin=pin, cb=cb, subsystem_ok=True, **cr)
 
 def real_ssh_expect(c):
     """Independent statement of the property for the real-server cases: (trusted?, authenticated?)."""
-    cb_true = bool(c['cb'])
+    # a fingerprint-checking callback says yes exactly when the fingerprint it trusts is the presented key's
+    cb_true = c['cb'] == 'only_presented' if isinstance(c['cb'], str) else bool(c['cb'])
     if not c['verify']: trusted = True
     elif c['pin']: trusted = c['pin'] == 'match' or cb_true
     else: trusted = c['kh'] in ('host', 'hostport') or cb_true
@@ -297,13 +362,15 @@ def real_ssh_expect(c):
 
 def real_ssh_model(c, kex_ok=True):
     """the same case for the model (the server's key is E1, the other key of that type E2)"""
-    kh = {'absent': None, 'host': [('host', 'E1')], 'hostport': [('hostport', 'E1')], 'different': [('host', 'E2')]}[c['kh']]
+    kh = {'absent': None, 'host': [('host', 'E1')], 'hostport': [('hostport', 'E1')], 'different': [('host', 'E2')],
+          'different_hostport': [('hostport', 'E2')], 'different_both': [('host', 'E2'), ('hostport', 'E2')]}[c['kh']]
+    pol = {'only_presented': ['fp', 'E1'], 'only_stored': ['fp', 'E2'], 'only_random': ['fp', 'X9']}.get(c['cb']) if isinstance(c['cb'], str) else None
     pin = {None: None, 'match': 'E1', 'different': 'E2'}[c['pin']]
     auths = []
     key_tried = bool(c['keyfile']) and load_ok('kf0', c['password'])
     if key_tried: auths.append(c['keyfile'] == 'right')
     if c['password'] and not (key_tried and c['keyfile'] == 'right'): auths.append(c['password'] == 'right')
-    return ssh_case(verify=c['verify'], kh=kh, pin=pin, user_cb=c['cb'] is not None, cb_verdict=bool(c['cb']),
+    return ssh_case(verify=c['verify'], kh=kh, pin=pin, user_cb=c['cb'] is not None, cb_verdict=bool(c['cb']) and not pol, cb_policy=pol,
                     key_files=['kf0'] if c['keyfile'] else [], password=bool(c['password']), auths=auths,
                     subs=[c['subsystem_ok']], opens=[True], kex_ok=kex_ok)
 
@@ -319,7 +386,7 @@ def check_ssh_real(ctx, c, mo=None):
     want_code = 1 if not trusted else (2 if not authed else (0 if c['subsystem_ok'] else 3))
     # O3: with an RSA key recorded for the host (or pinned) ssh.py asks for the host key algorithm "ssh-rsa" only, which
     # paramiko >= 4 cannot negotiate: SSHError("Negotiation failed") is then tolerated, the safety clauses are not relaxed
-    rsa_restricted = c.get('hostkey') == 'rsa' and (c['pin'] or (c['verify'] and c['kh'] != 'absent'))
+    rsa_restricted = c.get('hostkey') == 'rsa' and bool(c['pin'] or (c['verify'] and c['kh'] != 'absent'))
     def kex_failed(r): return r['code'] == 3 and 'Negotiation failed' in r['msg']
     def judge(r):
         bad = []
@@ -330,6 +397,12 @@ def check_ssh_real(ctx, c, mo=None):
             if subs or r['bytes']: bad.append(('credential_or_traffic_without_trusted_hostkey', 'subsystem request / %d octets received' % len(r['bytes'])))
         if not any(e[2] for e in auths) and (subs or r['bytes'] or r['code'] == 0):
             bad.append(('session_without_authentication', 'subsystem %r, %d octets, result %d without a granted request' % (subs, len(r['bytes']), r['code'])))
+        for a in r['cb_asked']:
+            if list(a) != list(r['presented']):
+                bad.append(('callback_shown_wrong_arguments', 'unknown_host_cb was called with %r; the host dialled and the fingerprint of the key the server presented are %r' % (a, r['presented'])))
+                break
+        if r['code'] == 1 and r['exc_args'][1] != r['presented'][1]:
+            bad.append(('unknown_host_error_wrong_fingerprint', 'SSHUnknownHostError.fingerprint = %r; the server presented %r' % (r['exc_args'][1], r['presented'][1])))
         if r['code'] != want_code and not (rsa_restricted and kex_failed(r) and not auths):
             bad.append(('wrong_result', 'expected result %d, got %d (%s: %s)' % (want_code, r['code'], r['exc'], r['msg'])))
         if r['code'] == 0 and b'<hello' not in r['bytes'].replace(b'nc:hello', b'hello'):
@@ -338,19 +411,21 @@ def check_ssh_real(ctx, c, mo=None):
     r = retry3(lambda: H().run_ssh_real(c), lambda r: not judge(r))
     ctx.count(c); ctx.traces += 1
     ctx.hist('real_ssh_result', (c.get('hostkey', 'ecdsa') + ':') + (r['exc'] or 'Ok') + (' (negotiation)' if kex_failed(r) else ''))
-    obs = dict(server=[list(e) for e in r['server']], octets=len(r['bytes']), result=r['code'], exception=r['exc'], message=r['msg'])
+    obs = dict(server=[list(e) for e in r['server']], octets=len(r['bytes']), result=r['code'], exception=r['exc'], message=r['msg'],
+               callback_called_with=r['cb_asked'], presented=r['presented'])
     for sig, text in judge(r):
         ctx.fail(c, text, sig=None, expected='property C15 (%s)' % sig, actual=obs)
     if ctx.model:
         # the library's key-exchange verdict is an oracle answer of the model
         mo = ctx.model.call(ssh_model_call(real_ssh_model(c, kex_ok=not (rsa_restricted and kex_failed(r)))))
         if isinstance(mo, str): ctx.disagree(c, mo, obs, 'model runner error', theorem='C15_*'); return
-        evs, _, mcode = model_events(mo)
+        evs, _, mcode, _ = model_events(mo)
+        m_asked = sum(1 for e in evs if e[0] == 'CallbackAsked')
         m_auth = [[{0: 'publickey', 3: 'password'}.get(e[1], '?'), e[3]] for e in evs if e[0] == 'Auth']
         i_auth = [[e[1], e[2]] for e in r['server'] if e[0] == 'auth' and e[1] != 'none']
         m_sub = [e[1] for e in evs if e[0] == 'Invoke']; i_sub = [e[1] for e in r['server'] if e[0] == 'subsystem']
-        if [m_auth, m_sub, mcode, any(e[0] == 'SendHello' for e in evs)] != [i_auth, i_sub, r['code'], len(r['bytes']) > 0]:
-            ctx.disagree(c, [m_auth, m_sub, mcode], [i_auth, i_sub, r['code'], len(r['bytes'])],
+        if [m_auth, m_sub, mcode, any(e[0] == 'SendHello' for e in evs), m_asked] != [i_auth, i_sub, r['code'], len(r['bytes']) > 0, len(r['cb_asked'])]:
+            ctx.disagree(c, [m_auth, m_sub, mcode, m_asked], [i_auth, i_sub, r['code'], len(r['bytes']), len(r['cb_asked'])],
                          'Auth.ssh_connect vs SSHSession.connect against a real paramiko server', theorem='C15_verify_first/C15_reject/C15_auth_fail')
 
 def real_tls_cases():
@@ -388,7 +463,7 @@ def check_tls_real(ctx, pki, c):
                                                 server_hostname=bool(c['server_hostname']), load_cert=0, load_ca=0, connect_ok=1,
                                                 handshake_ok=ok, hello_ok=1)))
         if not isinstance(mo, str):
-            evs, _, mcode = model_events(mo)
+            evs, _, mcode, _ = model_events(mo)
             if [mcode, any(e[0] == 'SendHello' for e in evs)] != [r['code'], len(r['bytes']) > 0]:
                 ctx.disagree(c, [mcode], [r['code'], len(r['bytes'])], 'Auth.tls_connect vs TLSSession.connect against a real ssl server', theorem='C15_tls')
 
@@ -435,7 +510,11 @@ def run(ctx):
         for c in [dict(kind='ssh_real', verify=True, kh='absent', pin=None, cb=None, password='right', keyfile=None, subsystem_ok=True),
                   dict(kind='ssh_real', verify=True, kh='hostport', pin=None, cb=None, password='wrong', keyfile=None, subsystem_ok=True),
                   dict(kind='ssh_real', verify=True, kh='different', pin='match', cb=None, password='right', keyfile=None, subsystem_ok=True),
-                  dict(kind='ssh_real', hostkey='rsa', verify=True, kh='absent', pin=None, cb=True, password='right', keyfile=None, subsystem_ok=True)]:
+                  dict(kind='ssh_real', hostkey='rsa', verify=True, kh='absent', pin=None, cb=True, password='right', keyfile=None, subsystem_ok=True),
+                  # the host is known under another key of the same type; the caller's callback trusts one fingerprint only
+                  dict(kind='ssh_real', verify=True, kh='different', pin=None, cb='only_stored', password='wrong', keyfile=None, subsystem_ok=True),
+                  dict(kind='ssh_real', verify=True, kh='different_hostport', pin=None, cb='only_stored', password='right', keyfile=None, subsystem_ok=True),
+                  dict(kind='ssh_real', verify=True, kh='different_both', pin=None, cb='only_presented', password='right', keyfile=None, subsystem_ok=True)]:
             run_one(ctx, c)
         for c in [dict(kind='tls_real', cert='good', ca='ca1', check_hostname=True, server_hostname=None),
                   dict(kind='tls_real', cert='wrongca', ca='ca1', check_hostname=False, server_hostname=None),
